@@ -4,6 +4,7 @@ import numpy as np
 
 from .generic_elongation import GenericElongationGroove
 from .generic_elongation_solvers import solve_r123
+from ._validation import validated
 
 __all__ = ["EquivalentRibbedGroove"]
 
@@ -11,6 +12,7 @@ __all__ = ["EquivalentRibbedGroove"]
 class EquivalentRibbedGroove(GenericElongationGroove):
     """Represents a round-shaped groove approximating a ribbed groove using the same mean cross-section area."""
 
+    @validated(signed=("pad_angle", "rib_angle"))
     def __init__(
         self,
         r1: float,
